@@ -2,6 +2,7 @@ package messages
 
 import (
 	"encoding/gob"
+	"errors"
 	"fmt"
 	"reflect"
 	"time"
@@ -66,6 +67,28 @@ type Codec interface {
 	Decode(message []byte) (any, error)
 }
 
+// ErrCodecRequired 表示消息不是内部注册的消息类型，且未配置外部 Codec，无法进行编解码。
+var ErrCodecRequired = errors.New("message is not a registered message and no codec is configured")
+
+// EncodeOutsideMessage 使用外部 Codec 编码非内部注册的消息，未配置 Codec 或消息为 nil 时返回错误。
+func EncodeOutsideMessage(codec Codec, message any) ([]byte, error) {
+	if codec == nil {
+		return nil, fmt.Errorf("%w: %T", ErrCodecRequired, message)
+	}
+	if message == nil {
+		return nil, fmt.Errorf("cannot encode nil message")
+	}
+	return codec.Encode(message)
+}
+
+// DecodeOutsideMessage 使用外部 Codec 解码非内部注册的消息，未配置 Codec 时返回错误。
+func DecodeOutsideMessage(codec Codec, messageName string, data []byte) (any, error) {
+	if codec == nil {
+		return nil, fmt.Errorf("%w: %q", ErrCodecRequired, messageName)
+	}
+	return codec.Decode(data)
+}
+
 func RegisterInternalMessage[T any](messageName string, reader InternalMessageReader, writer InternalMessageWriter) {
 	tof := reflect.TypeOf((*T)(nil)).Elem().Elem()
 	desc := &MessageDesc{
@@ -79,7 +102,12 @@ func RegisterInternalMessage[T any](messageName string, reader InternalMessageRe
 }
 
 func QueryMessageDesc(message any) *MessageDesc {
-	tof := reflect.TypeOf(message).Elem()
+	typ := reflect.TypeOf(message)
+	if typ == nil || typ.Kind() != reflect.Ptr {
+		// nil 或非指针消息一定不是内部注册的消息类型
+		return outsideMessageDesc
+	}
+	tof := typ.Elem()
 	desc, ok := internalMessageTypeOfDesc[tof]
 	if ok {
 		return desc
@@ -96,6 +124,9 @@ func QueryMessageDescByName(messageName string) *MessageDesc {
 }
 
 func SerializeRemotingMessage(codec Codec, writer *Writer, desc *MessageDesc, message any) error {
+	if rv := reflect.ValueOf(message); !rv.IsValid() || (rv.Kind() == reflect.Ptr && rv.IsNil()) {
+		return fmt.Errorf("cannot serialize nil message: %T", message)
+	}
 	dw := NewWriterFromPool()
 	defer ReleaseWriterToPool(dw)
 	if err := desc.writer(message, dw, codec); err != nil {
